@@ -1,8 +1,10 @@
 #!/usr/bin/env python3
-"""dbl2lean.py — translator from the Rust text of the byte-wise layout pass
-(`DoubleArrayAhoCorasickBuilder::build_double_array`, src/bytewise/builder.rs) to Lean 4
-(`lean/Daac/Gen/BuildB.lean`, namespace `Daac.Gen.DB`).  `Daac/Proofs/TieD.lean` relates the generated
-definition to the hand-written model `buildLayout .bytewise` (Daac/Model/Build.lean).
+"""dbl2lean.py — translator from the Rust text of the two layout passes
+(`DoubleArrayAhoCorasickBuilder::build_double_array`, src/bytewise/builder.rs, and
+`CharwiseDoubleArrayAhoCorasickBuilder::build_double_array`, src/charwise/builder.rs) to Lean 4
+(`lean/Daac/Gen/BuildB.lean`, namespace `Daac.Gen.DB`; `lean/Daac/Gen/BuildC.lean`, namespace
+`Daac.Gen.DC`).  `Daac/Proofs/TieD.lean` / `Daac/Proofs/TieDC.lean` relate the generated definitions to
+the hand-written model `buildLayout .bytewise` / `buildLayout .charwise` (Daac/Model/Build.lean).
 
 Every run re-reads the repository's current source text, parses the function body with the Rust parser
 of tools/rs2lean.py (extended here by `while let` in statement position and both `vec!` forms) and
@@ -43,6 +45,19 @@ Translation rules (trusted base, with lean/Daac/Gen/PreludeDbl.lean, PreludeNfa.
    Rust signature in src/bytewise.rs is checked for the argument kind and for `Result`), and written
    back; `self.states.shrink_to_fit()` is the identity.
 
+Char-wise builder only (the setters are `Rs.StC.set_X`, checked against src/charwise.rs):
+
+ * an empty `vec![]` local all of whose `push`es take a pair `(a, b)` of integers is a
+   `List (Nat × Nat)` in order (`push p` = `l ++ [p]`, `clear` = `[]`, `&l` as a slice argument or as
+   the iterator of `for &(a, b) in &l` = the list itself);
+ * `l.sort_by(|(c1, _), (c2, _)| c1.cmp(c2))` (exactly this closure shape) = `Rs.sortByFst l`, the STABLE
+   insertion sort by the first component (Gen/PreludeDbl.lean; `slice::sort_by` is stable);
+ * `self.mapper.get(c)` = `Rs.CodeMapper.get self.mapper c` (Gen/PreludeDbl.lean).  The Rust signature
+   in src/charwise/mapper.rs is checked, and the prelude's definition is compared TEXTUALLY with the
+   definition `CodeMapper.get` that tools/rs2lean.py generates from src/charwise/mapper.rs into
+   Gen/SearchC.lean (modulo the carrier: `self.table` of a `Mapper` for `self.mapTable` of a `DA V`);
+ * `x.unwrap()` on an `Option<u32>` = `match x with | none => .error (.panic ..) | some v => ..`.
+
 Usage: dbl2lean.py [repo_root] [out_dir]
 """
 import os, re, sys, json, hashlib
@@ -60,10 +75,35 @@ CONSTS = {'ROOT_STATE_IDX': ('Gen.rootStateIdx', 'rootStateIdx', 'src/bytewise.r
           'ROOT_STATE_ID': ('Gen.rootStateId', 'rootStateId', 'src/nfa_builder.rs'),
           'DEAD_STATE_ID': ('Gen.deadStateId', 'deadStateId', 'src/nfa_builder.rs')}
 
+# Per-variant configuration; `configure` installs one of them in the module-level names used below.
+STATE_SRC = 'src/bytewise.rs'      # where `State::set_X` is defined
+ST = 'St'                          # prelude namespace of the setters (`Rs.St.set_X`)
+LAYOUT = ('LayoutB.lean', 'LB')    # generated layout primitives of the builder and their namespace
+NFA_ALIAS = ('BytewiseNfaBuilder', 'u8')
+NS = 'DB'
+OUT = 'BuildB.lean'
+CHARWISE = False
+
+VARIANTS = {
+    'bytewise': dict(SRC='src/bytewise/builder.rs', BUILDER='DoubleArrayAhoCorasickBuilder', STATE_SRC='src/bytewise.rs',
+                     ST='St', LAYOUT=('LayoutB.lean', 'LB'), NFA_ALIAS=('BytewiseNfaBuilder', 'u8'), NS='DB',
+                     OUT='BuildB.lean', CHARWISE=False),
+    'charwise': dict(SRC='src/charwise/builder.rs', BUILDER='CharwiseDoubleArrayAhoCorasickBuilder', STATE_SRC='src/charwise.rs',
+                     ST='StC', LAYOUT=('LayoutC.lean', 'LC'), NFA_ALIAS=('CharwiseNfaBuilder', 'char'), NS='DC',
+                     OUT='BuildC.lean', CHARWISE=True),
+}
+
+def configure(variant):
+    g = globals()
+    for k, v in VARIANTS[variant].items(): g[k] = v
+    for n in ('ROOT_STATE_IDX', 'DEAD_STATE_IDX'):
+        CONSTS[n] = CONSTS[n][:2] + (STATE_SRC,)
+
 LEAN_TY = {'nat': 'Nat', 'bool': 'Bool', 'helper': 'BuildHelper', 'vecnat': 'Array Nat', 'stack': 'List Nat',
            'labels': 'List Nat', 'nfa': 'NfaBuilder V', 'nstate': 'NfaBuilderState V',
            'nstates': 'Array (NfaBuilderState V)', 'edges': 'Rs.EdgeMap', 'optnat': 'Option Nat',
-           'self': 'Builder', 'unit': 'Unit', 'range': 'Nat × Nat', 'states': 'Array St'}
+           'self': 'Builder', 'unit': 'Unit', 'range': 'Nat × Nat', 'states': 'Array St',
+           'pairs': 'List (Nat × Nat)'}
 
 
 class PD(PN):
@@ -188,10 +228,13 @@ class Tr:
                     elif v in env:
                         tag = env[v][1]
                         if tag in ('stack', 'labels') and m in ('push', 'pop', 'clear'): add(v)
+                        elif tag == 'pairs' and m in ('push', 'clear', 'sort_by'): add(v)
                         elif tag == 'helper':
                             if self.u.rust_sig('BuildHelper', m, self)['selfkind'] == 'mut': add(v)
                 elif recv[0] == 'index' and recv[1] == ('field', ('path', ['self']), 'states') and m.startswith('set_'):
                     add('self')
+                elif CHARWISE and recv == ('field', ('path', ['self']), 'mapper') and m == 'get':
+                    self.u.check_mapper_get(self)          # `CodeMapper::get(&self, ..)`: a read
                 elif recv[0] == 'field' and recv[1] == ('path', ['self']) and m != 'len' and m != 'shrink_to_fit':
                     add('self')
             return False
@@ -272,6 +315,13 @@ class Tr:
                 x = self.fresh('x')
                 return self.bind(f'Rs.index {tb} {ti}', x, k(x, elt))
             return self.tx_list([e[1], e[2]], env, ki)
+        if h == 'tuple':
+            if not CHARWISE or len(e[1]) != 2: self.err('unsupported tuple expression')
+            def kt(ts):
+                (ta, tga), (tb, tgb) = ts
+                if (tga, tgb) != ('nat', 'nat'): self.err(f'pair of {tga} / {tgb}')
+                return k(f'({ta}, {tb})', ('pair', 'nat', 'nat'))
+            return self.tx_list(e[1], env, kt)
         if h == 'try':
             if e[1][0] != 'mcall': self.err('`?` on something that is not a method call')
             return self.tx_mcall(e[1], env, k, under_try=True)
@@ -330,10 +380,10 @@ class Tr:
                 el = self.fresh('el')
                 if is_result:
                     el2 = self.fresh('el')
-                    inner = self.bind(f'Rs.St.{m} {el} {tv}', el2,
+                    inner = self.bind(f'Rs.{ST}.{m} {el} {tv}', el2,
                                       [f'let self := {{ self with states := self.states.setIfInBounds {ti} {el2} }}'] + k('()', 'unit'))
                 else:
-                    inner = [f'let self := {{ self with states := self.states.setIfInBounds {ti} (Rs.St.{m} {el} {tv}) }}'] + k('()', 'unit')
+                    inner = [f'let self := {{ self with states := self.states.setIfInBounds {ti} (Rs.{ST}.{m} {el} {tv}) }}'] + k('()', 'unit')
                 return self.bind(f'Rs.index self.states {ti}', el, inner)
             return self.tx_list([recv[2], args[0]], env, ks)
         # --- `self.states.shrink_to_fit()` / `.len()`
@@ -353,12 +403,40 @@ class Tr:
             if m == 'clear' and args == [] and tag == 'labels':
                 return [f'let {lname(v)} : List Nat := []'] + k('()', 'unit')
             self.err(f'unsupported method `.{m}(..)` on the local collection `{v}`')
+        if recv[0] == 'path' and len(recv[1]) == 1 and recv[1][0] in env and env[recv[1][0]][1] == 'pairs':
+            v, (kind, tag) = recv[1][0], env[recv[1][0]]
+            need_try(False)
+            if kind != 'mut': self.err(f'`{v}` is not mutable')
+            if m == 'push' and len(args) == 1:
+                def kp(t, tga):
+                    if tga != ('pair', 'nat', 'nat'): self.err('push of something that is not a pair of integers')
+                    return [f'let {lname(v)} := ({lname(v)} ++ [{t}])'] + k('()', 'unit')
+                return self.tx(args[0], env, kp)
+            if m == 'clear' and args == []:
+                return [f'let {lname(v)} : List (Nat × Nat) := []'] + k('()', 'unit')
+            if m == 'sort_by' and len(args) == 1:
+                c = args[0]
+                ok = c[0] == 'closure' and len(c[1]) == 2 and all(
+                    p[0] == 'ptuple' and len(p[1]) == 2 and p[1][0][0] == 'pid' and p[1][1] == ('pwild',) for p in c[1])
+                if ok:
+                    c1, c2 = c[1][0][1][0][1], c[1][1][1][0][1]
+                    ok = c1 != c2 and c[2] == ('mcall', ('path', [c1]), 'cmp', [('path', [c2])])
+                if not ok: self.err('`sort_by` closure must be exactly `|(c1, _), (c2, _)| c1.cmp(c2)`')
+                return [f'let {lname(v)} := Rs.sortByFst {lname(v)}'] + k('()', 'unit')
+            self.err(f'unsupported method `.{m}(..)` on the local collection `{v}`')
         # --- std methods on values
         def kr(t, tag):
             need_try(False)
             if m == 'len' and args == [] and tag in ('nstates', 'states'): return k(f'{t}.size', 'nat')
             if m == 'borrow' and args == [] and tag == 'nstate': return k(t, 'nstate')
             if m == 'get' and args == [] and tag == 'nat': return k(t, 'nat')
+            if m == 'get' and len(args) == 1 and tag == 'mapper':
+                self.u.check_mapper_get(self)
+                return self.tx(args[0], env, lambda a, tga: k(f'(Rs.CodeMapper.get {t} {a})', 'optnat') if tga == 'nat'
+                               else self.err('`mapper.get` of a non-integer'))
+            if m == 'unwrap' and args == [] and tag == 'optnat' and CHARWISE:
+                u = self.fresh('u')
+                return [f'match {t} with', '| none => .error (.panic "unwrap on None")', f'| some {u} =>'] + ind(k(u, 'nat'))
             if m == 'is_empty' and args == [] and tag == 'edges': return k(f'(List.isEmpty {t})', 'bool')
             if m == 'keys' and args == [] and tag == 'edges': return k(f'(List.map Prod.fst {t})', ('iter', 'nat'))
             if m == 'iter' and args == [] and tag == 'nstates': return k(t, ('iterA', 'nstate'))
@@ -419,6 +497,9 @@ class Tr:
                 if any(tg != 'nat' for _, tg in elems): self.err('vec![..] of non-integers')
                 if uses <= {'m:push', 'm:pop'} and 'm:pop' in uses:
                     kind, items = 'stack', list(reversed(elems))
+                elif CHARWISE and not elems and uses <= {'m:push', 'm:clear', 'm:sort_by', 'ref'} and self.pushes_pairs(x, (rest, tail)):
+                    env2 = dict(env); env2[x] = ('mut', 'pairs')
+                    return [f'let {lname(x)} : List (Nat × Nat) := []'] + cont(env2)
                 elif uses <= {'m:push', 'm:clear', 'ref'}:
                     kind, items = 'labels', elems
                 else: self.err(f'`{x}` (vec![..]) is used in an unsupported way: {sorted(uses)}')
@@ -461,6 +542,16 @@ class Tr:
                 return self.tx(x, env, km)
             self.err(f'unsupported expression statement `{x[0]}`')
         self.err(f'unsupported statement form `{h}`')
+
+    def pushes_pairs(self, var, body):
+        """every `var.push(..)` in `body` takes a two-component tuple (and there is at least one)."""
+        acc = []
+        def f(n):
+            if n[0] == 'mcall' and n[1] == ('path', [var]) and n[2] == 'push':
+                acc.append(len(n[3]) == 1 and n[3][0][0] == 'tuple' and len(n[3][0][1]) == 2)
+            return False
+        walk(body, f)
+        return bool(acc) and all(acc)
 
     def tx_if(self, e, env, ctx, cont):
         _, cond, then, els = e
@@ -506,6 +597,10 @@ class Tr:
         name = f'{self.lean_name}.loop{self.nloops}'; self.nloops += 1
         lt, ltag = self.px(it, env)
         if ltag == 'edges': item = ('pair', 'nat', 'nat')
+        elif ltag == 'pairs':
+            item = ('pair', 'nat', 'nat')
+            if pat[0] != 'pref': self.err('`for` over `&Vec<(u32, u32)>` must bind `&(a, b)`')
+            pat = pat[1]
         elif isinstance(ltag, tuple) and ltag[0] == 'iter': item = ltag[1]
         elif ltag == 'range': lt, item = f'(Rs.rangeList {lt}.1 {lt}.2)', 'nat'
         else: self.err(f'`for` over a value of kind {ltag}')
@@ -594,10 +689,13 @@ class Unit:
         self.structs, self.fns = parse_items(self.src, SRC)
         _, self.hfns = parse_items(rd('src/build_helper.rs'), 'src/build_helper.rs')
         self.nstructs, _ = parse_items(rd('src/nfa_builder.rs'), 'src/nfa_builder.rs')
-        _, self.sfns = parse_items(rd('src/bytewise.rs'), 'src/bytewise.rs')
+        _, self.sfns = parse_items(rd(STATE_SRC), STATE_SRC)
         if BUILDER not in self.structs: raise TErr(f'{SRC}: struct {BUILDER} not found')
-        if not re.search(r'type\s+BytewiseNfaBuilder\s*<\s*V\s*>\s*=\s*NfaBuilder\s*<\s*u8\s*,\s*V\s*>\s*;', self.src):
-            raise TErr(f'{SRC}: `type BytewiseNfaBuilder<V> = NfaBuilder<u8, V>` not found')
+        if not re.search(rf'type\s+{NFA_ALIAS[0]}\s*<\s*V\s*>\s*=\s*NfaBuilder\s*<\s*{NFA_ALIAS[1]}\s*,\s*V\s*>\s*;', self.src):
+            raise TErr(f'{SRC}: `type {NFA_ALIAS[0]}<V> = NfaBuilder<{NFA_ALIAS[1]}, V>` not found')
+        if CHARWISE:
+            _, self.mfns = parse_items(rd('src/charwise/mapper.rs'), 'src/charwise/mapper.rs')
+            self.searchc = open(os.path.join(outdir, 'SearchC.lean')).read()
         consts_lean = open(os.path.join(outdir, 'Consts.lean')).read()
         self.consts = {}
         for n, (lean, ln, file) in CONSTS.items():
@@ -606,14 +704,17 @@ class Unit:
             if not m or not m2 or m.group(1) != m2.group(1): raise TErr(f'{file}: constant {n} does not agree with Gen/Consts.lean')
             if not re.search(rf'\b{n}\b', self.src.split('impl')[0]): raise TErr(f'{SRC}: {n} is not imported')
             self.consts[n] = lean
-        self.lean_text = {BUILDER: open(os.path.join(outdir, 'LayoutB.lean')).read(),
+        self.lean_text = {BUILDER: open(os.path.join(outdir, LAYOUT[0])).read(),
                           'BuildHelper': open(os.path.join(outdir, 'Helper.lean')).read()}
         self.prelude = open(os.path.join(outdir, 'PreludeDbl.lean')).read()
 
     def param_tag(self, pty, tr):
         t = re.sub(r"^&('[a-z_]+)?(mut)?", '', pty.replace(' ', ''))
         table = {'u32': 'nat', 'u8': 'nat', 'usize': 'nat', 'NonZeroU32': 'nat', '[u8]': 'labels', 'BuildHelper': 'helper',
-                 'BytewiseNfaBuilder<V>': 'nfa', 'Option<NonZeroU32>': 'optnat'}
+                 NFA_ALIAS[0] + '<V>': 'nfa', 'Option<NonZeroU32>': 'optnat'}
+        if CHARWISE:
+            del table['[u8]'], table['u8']
+            table['[(u32,u32)]'] = 'pairs'; table['char'] = 'nat'
         if t not in table: tr.err(f'parameter type `{pty}` is outside the supported subset')
         return table[t]
 
@@ -631,7 +732,7 @@ class Unit:
     def lean_sig(self, owner, m, tr):
         short = 'Builder' if owner == BUILDER else owner
         mm = re.search(rf'^def {short}\.{lname(m)} (.*?) : ([^:\n]*) :=$', self.lean_text[owner], re.M)
-        if not mm: tr.err(f'`{owner}::{m}` has no generated definition (Gen/LayoutB.lean / Gen/Helper.lean)')
+        if not mm: tr.err(f'`{owner}::{m}` has no generated definition (Gen/{LAYOUT[0]} / Gen/Helper.lean)')
         ret = mm.group(2).strip()
         fallible = ret.startswith('Except BuildErr ')
         inner = ret[len('Except BuildErr '):].strip() if fallible else ret
@@ -643,7 +744,7 @@ class Unit:
             if ch == '×' and depth == 0: comps.append(cur.strip()); cur = ''
             else: cur += ch
         comps.append(cur.strip())
-        name = ('LB.' if owner == BUILDER else 'H.') + f'{short}.{lname(m)}'
+        name = (LAYOUT[1] + '.' if owner == BUILDER else 'H.') + f'{short}.{lname(m)}'
         return dict(name=name, ret=ret, fallible=fallible, comps=comps if fallible else [inner])
 
     def nfa_field(self, struct, field, tr):
@@ -656,17 +757,34 @@ class Unit:
     def self_field(self, field, tr):
         ty = self.structs[BUILDER].get(field)
         if ty is None: tr.err(f'{BUILDER} has no field `{field}`')
-        tag = {'Vec<State>': 'states', 'u32': 'nat'}.get(ty.replace(' ', ''))
+        tag = {'Vec<State>': 'states', 'u32': 'nat', **({'CodeMapper': 'mapper'} if CHARWISE else {})}.get(ty.replace(' ', ''))
         if tag is None: tr.err(f'field `self.{field}` has an unsupported type here')
         return tag
 
     def setter(self, m, tr):
         f = self.sfns.get(('State', m))
-        if f is None or f['selfkind'] != 'mut' or len(f['params']) != 1: tr.err(f'src/bytewise.rs: `State::{m}(&mut self, x)` not found')
-        if not re.search(rf'^def St\.{m} ', self.prelude, re.M): tr.err(f'Gen/PreludeDbl.lean does not define `St.{m}`')
+        if f is None or f['selfkind'] != 'mut' or len(f['params']) != 1: tr.err(f'{STATE_SRC}: `State::{m}(&mut self, x)` not found')
+        if not re.search(rf'^def {ST}\.{m} ', self.prelude, re.M): tr.err(f'Gen/PreludeDbl.lean does not define `{ST}.{m}`')
         ret = (f['ret'] or '()').replace(' ', '')
         if ret not in ('()', 'Result<()>'): tr.err(f'`State::{m}` returns `{f["ret"]}`')
         return self.param_tag(f['params'][0][1], tr), ret == 'Result<()>'
+
+    def check_mapper_get(self, tr):
+        """`CodeMapper::get(&self, c: char) -> Option<u32>`, and the prelude's `CodeMapper.get` is textually the
+        definition generated from src/charwise/mapper.rs into Gen/SearchC.lean (carrier renamed)."""
+        f = self.mfns.get(('CodeMapper', 'get'))
+        if f is None or f['selfkind'] != 'ref' or [p[1].replace(' ', '') for p in f['params']] != ['char'] \
+                or (f['ret'] or '').replace(' ', '') != 'Option<u32>':
+            tr.err('src/charwise/mapper.rs: `CodeMapper::get(&self, c: char) -> Option<u32>` not found')
+        def body(text, what):
+            m = re.search(r'^def CodeMapper\.get (.*?) :=\n((?:[ \t]+.*\n)+)', text, re.M)
+            if not m: tr.err(f'{what} does not define `CodeMapper.get`')
+            return m.group(1), m.group(2)
+        sh, sb = body(self.searchc, 'Gen/SearchC.lean')
+        ph, pb = body(self.prelude, 'Gen/PreludeDbl.lean')
+        if sh != '{V : Type} (self : DA V) (c : Nat) : Option Nat' or ph != '(self : Mapper) (c : Nat) : Option Nat' \
+                or sb.replace('self.mapTable', 'self.table') != pb:
+            tr.err('Gen/PreludeDbl.lean: `Rs.CodeMapper.get` is not the definition generated from src/charwise/mapper.rs (Gen/SearchC.lean)')
 
 
 HEADER = '''/- GENERATED by tools/dbl2lean.py from the repository's current source ({src}:
@@ -688,23 +806,53 @@ open Daac Daac.Gen.H Daac.Gen.LB Daac.Gen.N
 
 '''
 
-def main():
-    repo = sys.argv[1] if len(sys.argv) > 1 else '/repo'
-    outdir = sys.argv[2] if len(sys.argv) > 2 else os.path.join(os.path.dirname(os.path.abspath(__file__)), '..', 'lean', 'Daac', 'Gen')
+HEADER_C = '''/- GENERATED by tools/dbl2lean.py from the repository's current source ({src}:
+   `{builder}::build_double_array`). Do not edit.
+   Translation rules and their trusted base: see the header of tools/dbl2lean.py and
+   Daac/Gen/PreludeDbl.lean.  Representation: integers (and `char` labels, as code points) are `Nat`;
+   `&mut self`, `&mut helper` and `let mut` locals are threaded; `Result` / `?` / `unwrap` / out-of-range
+   indexing are `Except BuildErr`; `state_id_map` is `Array Nat`; the `stack` is the `List` whose head is its
+   top; `mapped` is a `List (Nat × Nat)`; `sort_by` on the first component is `Rs.sortByFst` (stable insertion
+   sort); `self.mapper.get` is `Rs.CodeMapper.get`; `while let Some(x) = stack.pop()` has fuel `{fuel}`; the
+   char-wise `State` is `St` (setters `Rs.StC.*`: Gen/PreludeDbl.lean).
+   DROPPED `debug_assert*!` statements (compiled out in release builds; conditions parsed and checked):
+{dropped}
+-/
+import Daac.Gen.LayoutC
+import Daac.Gen.Nfa
+import Daac.Gen.PreludeDbl
+set_option linter.unusedVariables false
+namespace Daac.Gen.DC
+open Daac Daac.Gen.H Daac.Gen.LC Daac.Gen.N
+
+'''
+
+def translate(variant, repo, outdir):
+    configure(variant)
     u = Unit(repo, outdir)
     f = u.fns.get((BUILDER, 'build_double_array'))
     if f is None: raise TErr(f'{SRC}: {BUILDER}::build_double_array not found')
     tr = Tr(u, f)
     body = tr.run()
     dropped = '\n'.join(f'     {d}' for d in tr.dropped) or '     (none)'
-    text = HEADER.format(src=SRC, builder=BUILDER, fuel=FUEL['Builder.build_double_array.loop0'], dropped=dropped) + body + '\nend Daac.Gen.DB\n'
-    path = os.path.join(outdir, 'BuildB.lean')
-    if not os.path.exists(path) or open(path).read() != text:
-        with open(path, 'w') as fh: fh.write(text)
+    header = HEADER_C if CHARWISE else HEADER
+    text = header.format(src=SRC, builder=BUILDER, fuel=FUEL['Builder.build_double_array.loop0'], dropped=dropped) + body + f'\nend Daac.Gen.{NS}\n'
     defs = {}
     for chunk in re.split(r'\n(?=/-- |def )', body):
         m = re.search(r'^def (\S+)', chunk, re.M)
-        if m: defs['DB.' + m.group(1)] = hashlib.sha1(chunk.encode()).hexdigest()[:16]
+        if m: defs[NS + '.' + m.group(1)] = hashlib.sha1(chunk.encode()).hexdigest()[:16]
+    return OUT, text, defs
+
+def main():
+    repo = sys.argv[1] if len(sys.argv) > 1 else '/repo'
+    outdir = sys.argv[2] if len(sys.argv) > 2 else os.path.join(os.path.dirname(os.path.abspath(__file__)), '..', 'lean', 'Daac', 'Gen')
+    results = [translate(v, repo, outdir) for v in ('bytewise', 'charwise')]     # nothing is written if either fails
+    defs = {}
+    for out, text, d in results:
+        path = os.path.join(outdir, out)
+        if not os.path.exists(path) or open(path).read() != text:
+            with open(path, 'w') as fh: fh.write(text)
+        defs.update(d)
     jtext = json.dumps(defs, indent=1, sort_keys=True) + '\n'
     jpath = os.path.join(outdir, 'dbl_defs.json')
     if not os.path.exists(jpath) or open(jpath).read() != jtext:
